@@ -27,12 +27,14 @@ package main
 
 import (
 	"fmt"
+	"net/http"
 	"slices"
 	"strings"
 
 	"verif/internal/ev"
 	"verif/internal/mon"
 	"verif/internal/opdrv"
+	"verif/internal/sched"
 	"verif/internal/vstore"
 )
 
@@ -73,6 +75,8 @@ type reqCtx struct {
 	Issuer    string         `json:"issuer_of_this_request"`
 	History   []string       `json:"earlier_requests_on_this_provider,omitempty"`
 	Extra     map[string]any `json:"provider_options,omitempty"`
+	Fault     *faultDesc     `json:"storage_fault,omitempty"`      // the storage was armed to fail during this request
+	Overlap   *overlapDesc   `json:"overlapping_request,omitempty"` // another request was served while this one was parked
 }
 
 type verdict struct{ judged, rejected, redirected, violated bool }
@@ -80,7 +84,14 @@ type verdict struct{ judged, rejected, redirected, violated bool }
 // judgeRequest sends the end-session request of (cs, h) and judges the answer. h says what the hint
 // proves relative to THIS request (its issuer, the key set the provider is configured with).
 func judgeRequest(run *ev.Run, router int, wc *wctx, cs *caseSpec, h *hintSpec, rc reqCtx) (v verdict) {
-	rn := opdrv.RouterNames[router]
+	req, snt := prepare(wc, cs, h, rc)
+	wc.w.Store.ResetJournal()
+	resp := wc.w.Do(router, req)
+	return judgeResponse(run, router, wc, cs, h, rc, snt, resp, wc.w.Store.Journal())
+}
+
+// prepare builds the HTTP request of (cs, h) as it arrives under rc.
+func prepare(wc *wctx, cs *caseSpec, h *hintSpec, rc reqCtx) (*http.Request, sent) {
 	req, snt := buildRequest(wc, cs, h)
 	if rc.Host != "" {
 		req.Host = rc.Host
@@ -89,9 +100,13 @@ func judgeRequest(run *ev.Run, router int, wc *wctx, cs *caseSpec, h *hintSpec, 
 	if rc.Forwarded != "" {
 		req.Header.Set("Forwarded", `for=192.0.2.1;host="`+rc.Forwarded+`";proto=https`)
 	}
-	wc.w.Store.ResetJournal()
-	resp := wc.w.Do(router, req)
-	journal := wc.w.Store.Journal()
+	return req, snt
+}
+
+// judgeResponse judges ONE answered end-session request on its own: resp is its answer and journal the storage
+// calls made on its behalf (for overlapping requests the caller has split the store's journal per request).
+func judgeResponse(run *ev.Run, router int, wc *wctx, cs *caseSpec, h *hintSpec, rc reqCtx, snt sent, resp *opdrv.Resp, journal []vstore.Entry) (v verdict) {
+	rn := opdrv.RouterNames[router]
 	run.Eval()
 
 	status, loc := resp.Status, resp.Location()
@@ -119,6 +134,13 @@ func judgeRequest(run *ev.Run, router int, wc *wctx, cs *caseSpec, h *hintSpec, 
 
 	rejected := status >= 400
 	redirected := status >= 300 && status < 400 && loc != ""
+	// a storage call made for this request failed (injected): refusing the request is then always a conforming answer
+	storageFailed := false
+	for _, e := range journal {
+		if e.Fault {
+			storageFailed = true
+		}
+	}
 	v.judged, v.rejected, v.redirected = true, rejected, redirected
 	run.Distinct(strings.Join([]string{rn, rc.Config, cs.HClass, cs.CClass, cs.UClass, cs.A, storeNames[cs.Store]}, "|"))
 	run.Count("dims", "config="+rc.Config)
@@ -192,7 +214,9 @@ func judgeRequest(run *ev.Run, router int, wc *wctx, cs *caseSpec, h *hintSpec, 
 		}
 		run.Observed("contradiction-rejected:" + rn)
 	case hintSent && h.MustAccept && regs[h.Azp] != nil:
-		if rejected {
+		if rejected && storageFailed {
+			run.Count("grey", "acceptable-hint-refused-while-the-storage-failed")
+		} else if rejected {
 			if len(requested) == 0 {
 				cl := "valid-rejected"
 				if h.Expired {
@@ -218,8 +242,11 @@ func judgeRequest(run *ev.Run, router int, wc *wctx, cs *caseSpec, h *hintSpec, 
 	if redirected {
 		targets = append(targets, target{"location", loc})
 	}
-	var terms []vstore.Entry
+	var terms, failedTerms []vstore.Entry
 	for _, e := range journal {
+		if (e.Method == "TerminateSession" || e.Method == "TerminateSessionFromRequest") && e.Err != "" {
+			failedTerms = append(failedTerms, e)
+		}
 		if (e.Method == "TerminateSession" || e.Method == "TerminateSessionFromRequest") && e.Err == "" {
 			terms = append(terms, e)
 			if e.Method == "TerminateSessionFromRequest" {
@@ -413,6 +440,20 @@ func judgeRequest(run *ev.Run, router int, wc *wctx, cs *caseSpec, h *hintSpec, 
 			run.Count("grey", "unexpected-terminate-method")
 		}
 	}
+	if len(failedTerms) > 0 && len(terms) == 0 {
+		// the storage reported that it could NOT terminate the session: nobody's session was terminated
+		f := failedTerms[0]
+		switch {
+		case rejected:
+			run.Observed("terminate-failure-reported:" + rn)
+			run.Observed("terminate-failure-reported:" + f.Method)
+		case hintSent && h.ValidSig && h.Azp != "":
+			violated("terminate", "failed-but-answered-as-logged-out", fmt.Sprintf("%s(%q, %q) failed (%s), so the session of the hint's subject %q and client %q was not terminated, yet the request was answered %d Location %q as if it had been", f.Method, f.A, f.B, f.Err, h.Sub, h.Azp, status, loc))
+			return
+		default:
+			run.Count("grey", "terminate-failed-but-not-rejected:no-proven-subject")
+		}
+	}
 	if redirected && hintSent && h.ValidSig && h.Azp != "" && len(terms) == 0 {
 		violated("terminate", "missing", fmt.Sprintf("logout answered %d %q on a validly signed hint (sub %q, azp %q) but no session was terminated", status, loc, h.Sub, h.Azp))
 		return
@@ -455,7 +496,7 @@ func hintKind(h *hintSpec) string {
 
 func main() {
 	run := ev.Start("C18", "exploration")
-	run.SetRule("case index = mixed radix over (hint class 26, client_id class 5, post_logout_redirect_uri class 34, registration of client A 10) x rounds; per case state class/value, B registration, storage variant, default-URI variant, signing algorithm, method, subject and the concrete URI/mutation are drawn from the case PRNG; every case is executed on the Provider router and the LegacyServer router (one evaluation each); a second enumerated product (case indices from 1e9) covers provider configurations: dynamic issuer (IssuerFromHost \"\" and \"/tenant\", IssuerFromForwardedOrHost) on a fresh provider per case driven under two hosts in both orders (3 requests) with hints for either host's issuer / the static issuer / issuer+slash, signed, expired or minted by a code flow under that host; and WithIDTokenHintKeySet({H}) / + WithAccessTokenKeySet(decoy) / decoy only / default with hints signed by H, the storage key S or a foreign key; distinct = distinct vectors (router, configuration, hint class, client_id class, URI class, A registration, storage variant) that were answered and judged")
+	run.SetRule("case index = mixed radix over (hint class 26, client_id class 5, post_logout_redirect_uri class 34, registration of client A 10) x rounds; per case state class/value, B registration, storage variant, default-URI variant, signing algorithm, method, subject and the concrete URI/mutation are drawn from the case PRNG; every case is executed on the Provider router and the LegacyServer router (one evaluation each); a second enumerated product (case indices from 1e9) covers provider configurations: dynamic issuer (IssuerFromHost \"\" and \"/tenant\", IssuerFromForwardedOrHost) on a fresh provider per case driven under two hosts in both orders (3 requests) with hints for either host's issuer / the static issuer / issuer+slash, signed, expired or minted by a code flow under that host; and WithIDTokenHintKeySet({H}) / + WithAccessTokenKeySet(decoy) / decoy only / default with hints signed by H, the storage key S or a foreign key; a third enumerated product (case indices from 2e9): storage variant x 12 request shapes x 6 error values, per case and router one clean pass and then one request per storage call index k (the k-th call fails) and per storage method (every call of it fails); a fourth (case indices from 3e9): two overlapping requests on one provider - multi-issuer provider (3 issuer modes) x which host is parked x hint of the parked request (own issuer, the other host's issuer, expired, absent) x hint of the other request, and static issuer x 6 x 3 hint classes - different clients, subjects, URIs and states, the first request parked at EVERY one of its yield points (library spans, storage calls, client getters) in turn while the second is served completely, each answer judged alone (configuration = world + yield point); distinct = distinct vectors (router, configuration, hint class, client_id class, URI class, A registration, storage variant) that were answered and judged")
 	run.Assume(
 		"glob semantics = path.Match as documented for op.HasRedirectGlobs; a malformed pattern registers nothing",
 		"a redirect target 'is' a requested URI when scheme/host (case-insensitively), userinfo, path, fragment and the multiset of query parameters other than state agree",
@@ -464,6 +505,8 @@ func main() {
 		"under a request-dependent issuer 'foreign issuer' is relative to the issuer of the request the hint is presented on; a hint is valid only under its own issuer",
 		"with op.WithIDTokenHintKeySet the configured set is the trusted one: a hint signed by the storage's signing key is then a wrong-key hint",
 		"without a hint no subject is proven: TerminateSession(\"\", client_id) is counted, not judged",
+		"while a storage call of the request fails, refusing the request is always conforming (an otherwise acceptable hint may be refused); a logout whose TerminateSession* call failed has terminated nobody's session: answering it with a redirect is a violation when the hint proves subject and client, grey without a proven subject",
+		"overlapping requests are judged one by one exactly like sequential ones; the parked request makes no storage call while the other one runs, so the store's journal is split by sequence number; a second request that cannot finish while the first is parked (2 min watchdog) makes the case inconclusive",
 		"state on the default logout URI: altered is a violation, absent is grey; a registered URI that itself carries a state parameter is excluded from the state oracle")
 	for _, rn := range opdrv.RouterNames {
 		if run.ReplayCase() >= 0 {
@@ -474,8 +517,14 @@ func main() {
 			"state-roundtrip:"+rn, "terminate-matched:"+rn, "terminate-from-request:"+rn, "default-redirect:"+rn, "storage-redirect:"+rn, "malformed-glob-decided:"+rn,
 			"meta-subst-refused:opted-in:"+rn, "meta-subst-refused:not-opted-in:"+rn,
 			"dyn-own-issuer-accepted:"+rn, "dyn-own-issuer-accepted-on-second-host:"+rn, "dyn-foreign-issuer-rejected:"+rn, "dyn-first-hosts-issuer-rejected-on-second-host:"+rn,
-			"ks-H-accepted-with-option:"+rn, "ks-S-rejected-with-option:"+rn, "ks-F-rejected-with-option:"+rn, "ks-S-accepted-without-option:"+rn, "ks-H-rejected-without-option:"+rn)
+			"ks-H-accepted-with-option:"+rn, "ks-S-rejected-with-option:"+rn, "ks-F-rejected-with-option:"+rn, "ks-S-accepted-without-option:"+rn, "ks-H-rejected-without-option:"+rn,
+			"fault:KeySet:refused:"+rn, "fault:GetClientByClientID:refused:"+rn, "fault:TerminateSession:refused:"+rn, "fault:TerminateSessionFromRequest:refused:"+rn, "terminate-failure-reported:"+rn,
+			"overlap-foreign-issuer-rejected:"+rn, "overlap-own-issuer-accepted:"+rn, "overlap-static-issuer-judged:"+rn, "overlap-parked-at-every-point:"+rn)
 	}
+	if run.ReplayCase() < 0 {
+		run.Mandatory("terminate-failure-reported:TerminateSession", "terminate-failure-reported:TerminateSessionFromRequest")
+	}
+	sched.Install()
 	p := product()
 	rounds := run.N(1, 24)
 	run.Extra("product_per_round", p)
@@ -483,8 +532,17 @@ func main() {
 	cfgRounds := run.N(3, 40)
 	run.Extra("config_product_per_round", configProduct())
 	run.Extra("config_rounds", cfgRounds)
+	faultRounds, overlapRounds := run.N(2, 30), run.N(2, 40)
+	run.Extra("fault_product_per_round", faultProduct())
+	run.Extra("fault_rounds", faultRounds)
+	run.Extra("overlap_product_per_round", overlapProduct())
+	run.Extra("overlap_rounds", overlapRounds)
 	if rc := run.ReplayCase(); rc >= 0 {
-		if rc >= configBase {
+		if rc >= overlapBase {
+			runOverlapCase(run, 0, int(rc-overlapBase))
+		} else if rc >= faultBase {
+			runFaultCase(run, 0, int(rc-faultBase))
+		} else if rc >= configBase {
 			runConfigCase(run, 0, int(rc-configBase))
 		} else {
 			runCase(run, 0, int(rc))
@@ -497,5 +555,12 @@ func main() {
 	ev.Parallel(configProduct()*cfgRounds, 0, func(worker int, j int) {
 		runConfigCase(run, worker, j)
 	})
+	ev.Parallel(faultProduct()*faultRounds, 0, func(worker int, j int) {
+		runFaultCase(run, worker, j)
+	})
+	ev.Parallel(overlapProduct()*overlapRounds, 0, func(worker int, j int) {
+		runOverlapCase(run, worker, j)
+	})
+	run.Extra("yield_points_passed", sched.Points())
 	run.Finish()
 }
